@@ -577,7 +577,18 @@ def _known():
 
 
 def _contains_return(node):
-    return any(isinstance(x, ast.Return) for x in ast.walk(node))
+    """a `return` of this function (those of nested function definitions do not count)"""
+    if isinstance(node, (ast.FunctionDef, ast.AsyncFunctionDef, ast.Lambda)):
+        return False
+    stack = [node]
+    while stack:
+        x = stack.pop()
+        if isinstance(x, ast.Return):
+            return True
+        for c in ast.iter_child_nodes(x):
+            if not isinstance(c, (ast.FunctionDef, ast.AsyncFunctionDef, ast.Lambda)):
+                stack.append(c)
+    return False
 
 
 def _always_returns(stmts):
@@ -623,6 +634,8 @@ def _inlinable(fdef):
     for x in ast.walk(fdef):
         if x is fdef:
             continue
+        if isinstance(x, ast.FunctionDef) and not x.decorator_list:
+            continue          # a plain local function travels with the body (renamed like any other local)
         if isinstance(x, (ast.FunctionDef, ast.AsyncFunctionDef, ast.ClassDef, ast.Yield, ast.YieldFrom, ast.Await, ast.Global, ast.Nonlocal)):
             return False
         if isinstance(x, ast.Call) and isinstance(x.func, ast.Name) and x.func.id in (fdef.name, "locals", "vars", "eval", "exec"):
@@ -659,6 +672,8 @@ def _instantiate(fdef, args, defaults_from):
                 stored.add(x.name)
             elif isinstance(x, ast.arg):
                 stored.add(x.arg)
+            elif isinstance(x, ast.FunctionDef):
+                stored.add(x.name)
     reassigned = set()
     for b in body:
         for x in ast.walk(b):
@@ -667,7 +682,15 @@ def _instantiate(fdef, args, defaults_from):
             if isinstance(x, ast.arg) and x.arg in params:
                 reassigned.add(x.arg)
     result = pre + "ret"
-    has_value = any(isinstance(x, ast.Return) and x.value is not None for b in body for x in ast.walk(b))
+    has_value = False
+    stack_ = list(body)
+    while stack_:
+        x = stack_.pop()
+        if isinstance(x, ast.Return) and x.value is not None:
+            has_value = True
+        for c_ in ast.iter_child_nodes(x):
+            if not isinstance(c_, (ast.FunctionDef, ast.AsyncFunctionDef, ast.Lambda)):
+                stack_.append(c_)
     body = _single_exit(body, result)
     # bind parameters
     bound = dict(zip(params, args))
@@ -701,6 +724,12 @@ def _instantiate(fdef, args, defaults_from):
             return node
 
         def visit_ExceptHandler(self, node):
+            if node.name in rename:
+                node.name = rename[node.name]
+            self.generic_visit(node)
+            return node
+
+        def visit_FunctionDef(self, node):
             if node.name in rename:
                 node.name = rename[node.name]
             self.generic_visit(node)
@@ -815,7 +844,9 @@ def inline_unknown_helpers(tree, modname):
                         continue
                     # free names of the helper must mean the same at the call site
                     free = {x.id for x in ast.walk(fdef) if isinstance(x, ast.Name)} - {a.arg for a in fdef.args.args} \
-                        - {x.id for x in ast.walk(fdef) if isinstance(x, ast.Name) and isinstance(x.ctx, ast.Store)}
+                        - {x.id for x in ast.walk(fdef) if isinstance(x, ast.Name) and isinstance(x.ctx, ast.Store)} \
+                        - {x.arg for x in ast.walk(fdef) if isinstance(x, ast.arg)} \
+                        - {x.name for x in ast.walk(fdef) if isinstance(x, ast.FunctionDef) and x is not fdef}
                     if free & local_stores:
                         i += 1
                         continue
